@@ -68,7 +68,7 @@ structure Rcv where
   pl : Nat := 0                -- peerLastTSN + 1 - peer's initial TSN
   rq : List Nat := []          -- payloadQueue: TSNs received above the cumulative point
   store : List Msg := []       -- complete messages in the streams' reassembly queues (not read yet)
-  rlog : List (Nat × Nat) := []  -- reader's view: (stream, message id) in the order read
+  rlog : List Msg := []        -- reader's view: the messages in the order read
   eofs : List (Nat × Nat) := []  -- closure reported on stream s after k messages had been read from it
   deriving Repr, DecidableEq, Inhabited
 
@@ -343,7 +343,7 @@ def t2Fire (e : Ep) : Ep :=
 def ackFire (e : Ep) : Ep :=
   if e.ack == ackDelay && !e.dead then { e with ack := ackImmediate } else e
 
-def Rcv.readOn (r : Rcv) (s : Nat) : List Nat := (r.rlog.filter (fun x => x.1 == s)).map (·.2)
+def Rcv.readOn (r : Rcv) (s : Nat) : List Nat := (r.rlog.filter (fun x => x.2.1 == s)).map (·.1)
 
 /-- Go: Stream.ReadSCTP called while something is readable: the ordered message with the next sequence number -/
 def drain : Nat → Rcv → Nat → Rcv
@@ -351,7 +351,7 @@ def drain : Nat → Rcv → Nat → Rcv
   | n+1, r, s =>
     match r.store.find? (fun c => c.2.1 == s && c.2.2 == (r.readOn s).length) with
     | none => r
-    | some c => drain n { r with store := r.store.erase c, rlog := r.rlog ++ [(s, c.1)] } s
+    | some c => drain n { r with store := r.store.erase c, rlog := r.rlog ++ [c] } s
 
 /-- drain stream `s`, then one more ReadSCTP if the stream carries a read error (closure is reported) -/
 def read (e : Ep) (s : Nat) : Ep :=
